@@ -450,6 +450,8 @@ var builtSpecs = []builtSpec{
 	{"defaults-only", []BOp{{Op: "build"}}, "memtls"},
 	{"none-only-guest-twice", []BOp{{Op: "enc", List: []string{"none"}}, {Op: "guest"}, {Op: "transport"}, {Op: "guest"}, {Op: "build"}}, "mem"},
 	{"tls-first-all", []BOp{{Op: "enc", List: []string{"tls", "none"}}, {Op: "guest"}, {Op: "plain", Fn: 7}, {Op: "build"}}, "memtls"},
+	// no negotiation stage: round trips and a peer that changes its identity between the rounds fit the quick depth
+	{"none-only-plain-key", []BOp{{Op: "enc", List: []string{"none"}}, {Op: "plain", Fn: 1}, {Op: "key", Fn: 2}, {Op: "build"}}, "mem"},
 }
 
 func authIn(scheme string, from, secret int, withCred bool) CIn {
